@@ -82,6 +82,10 @@ OPTION_DEVS = {
     "co2_const800": lambda s: {**s, "co2": {"constant_conc": True, "current_concentration": 800.0}},
     "co2_const300": lambda s: {**s, "co2": {"constant_conc": True, "current_concentration": 300.0}},
     "co2_table": lambda s: {**s, "co2": {"table": [[1990, 350.0], [2005, 380.0], [2050, 520.0]]}},
+    "co2_const600_3seasons": lambda s: {**s, "co2": {"constant_conc": True, "current_concentration": 600.0}, "end": "2004/04/20"},
+    "co2_const2100_3seasons": lambda s: {**s, "co2": {"constant_conc": True, "current_concentration": 2100.0}, "end": "2004/04/20"},
+    "co2_const350_3seasons": lambda s: {**s, "co2": {"constant_conc": True, "current_concentration": 350.0}, "end": "2004/04/20"},
+    "co2_table_rising_3seasons": lambda s: {**s, "co2": {"table": [[1990, 360.0], [2001, 500.0], [2002, 545.0], [2003, 556.0], [2004, 700.0], [2050, 2100.0]]}, "end": "2004/04/20"},
     "off_season": lambda s: {**s, "off_season": True},
     "calc_cn": lambda s: _soilkw(s, calc_cn=1),
     "adj_rew0": lambda s: _soilkw(s, adj_rew=0),
@@ -236,9 +240,9 @@ def describe(tier):
     return {
         "rule": ("ALL pairs (crop,strategy), (crop,soil), (soil,strategy) of the catalogue product 37 crops x 15 soils x 6 strategies" if tier == "quick" else
                  "the FULL catalogue product 37 crops x 15 soils x 6 strategies (3330 full-season runs)")
-                + " on the warm word, plus, around 6 bases, every single deviation " + ("and every 23rd pair" if tier == "quick" else "and EVERY pair") + " over 47 option switches (ETadj, PlantMethod, CropType 1-3, "
+                + " on the warm word, plus, around 6 bases, every single deviation " + ("and every 23rd pair" if tier == "quick" else "and EVERY pair") + " over 51 option switches (ETadj, PlantMethod, CropType 1-3, "
                 "GDDmethod 1-3, Determinant, SwitchGDD, stress switches, bunds with z_bund 0 / 0.5 mm / 0.2 m, fallow bunds, mulches, sr_inhb, CN adjustment, water-table methods incl. "
-                "uncovered series and a table at the surface, all IWC types, CO2 options, off-season, calc_cn, adj_rew, adj_cn, odd z_cn/z_germ, thick, short and non-uniform thickness lists) and 12 "
+                "uncovered series and a table at the surface, all IWC types, CO2 options (also over 3 seasons, below/around/above 550 and 2000 ppm), off-season, calc_cn, adj_rew, adj_cn, odd z_cn/z_germ, thick, short and non-uniform thickness lists) and 12 "
                 "window deviations (leap-day start/end, season across 29 Feb, partial season, no season, start before/after planting, 3 seasons, an end date on / one day after a planting day, planting on 12/31 and 01/01). Oracle: terminates "
                 "(watchdog), raises only documented rejections (matched on type AND origin), every cell of every table finite (z_gw exempt without a table).",
         "bound": "catalogue " + ("pairwise" if tier == "quick" else "complete") + "; deviations d<=" + ("1 (+1/23 of pairs)" if tier == "quick" else "2"),
